@@ -1,155 +1,137 @@
-(* C06 — specification side.
-   (a) what each operation returns, as a function on list VALUES;
-   (b) a cons-cell reference model that tracks only the STRUCTURE the language rules create
-       (which variables share cells), used to decide which variables a destructive operation may
-       affect;
-   (c) the frame rules the property states. *)
+(* C06 — specification side: a cons-cell reference machine.
+
+   The reference is a real cons heap: cells with a car and a cdr, variables point to a cell or are nil.
+   Every modelled operation has its meaning in cons terms:
+     - selectors of tails (cdr/rest, nthcdr, member, pop) return the existing cell: the result shares
+       structure with the argument exactly as the language rules say;
+     - every other non-destructive function returns NEW cells only: "the list it returns is independent
+       of its arguments and of the results of other calls" (the property text).  This is where the
+       reference deliberately shares LESS than a Common Lisp implementation would (cons, push, list*,
+       append keep their last argument as a tail there, last returns the last cons): the property only
+       forbids changes reaching lists that are not tails, it never demands that they reach tails;
+     - destructive functions work on the cells of their argument: (setf car/nth/elt) and rplaca write one
+       car; nreverse and sort permute the cars of the argument's own cells (a rearrangement the language
+       allows: "may modify the cars or the cdrs"); nconc and add with a non-empty result build new cells
+       (slip after repo_fixes/C06-1,3; nconc's first argument is then not extended as in CL: less
+       sharing again); rplacd sets the cdr of the first cell (the language rule).
+   No capacity, no array, no offset appears here. *)
 From C06 Require Export Model.
 
-(* ---- (a) values ---- *)
-Definition val_result (o : op) (pre : var -> list Z) : option (var * list Z) :=   (* (dst, expected contents) *)
-  match o with
-  | OList xs dst => Some (dst, xs)
-  | OCons x src dst => Some (dst, x :: pre src)
-  | OCdr src dst => Some (dst, tl (pre src))
-  | ONthcdr n src dst => Some (dst, skipn n (pre src))
-  | OLast src dst => Some (dst, skipn (length (pre src) - 1) (pre src))
-  | OButlast src dst => Some (dst, firstn (length (pre src) - 1) (pre src))
-  | OSubseq b e src dst => Some (dst, firstn (e - b) (skipn b (pre src)))
-  | OCopy src dst => Some (dst, pre src)
-  | OReverse src dst => Some (dst, rev (pre src))
-  | OAppend a b dst => Some (dst, pre a ++ pre b)
-  | OAdd src x dst => Some (dst, pre src ++ [x])
-  | OPush x v => Some (v, x :: pre v)
-  | OPop v => Some (v, tl (pre v))
-  | OSetcar v x => Some (v, match pre v with [] => [] | _ :: t => x :: t end)
-  | OSetnth v i x => Some (v, firstn i (pre v) ++ match skipn i (pre v) with [] => [] | _ :: t => x :: t end)
-  | ONreverse src dst => Some (dst, rev (pre src))
-  | ONconc a b dst => Some (dst, pre a ++ pre b)
-  | OSort src dst => Some (dst, isort (pre src))
-  | ORemove x src dst => Some (dst, filter (fun y => negb (Z.eqb x y)) (pre src))
-  end.
+Record cell := { car : Z; cdr : option nat }.
+Record cheap := { cells : list cell; cvars : list (option nat) }.     (* None = nil *)
+Definition cinit (n : nat) : cheap := {| cells := []; cvars := repeat None n |}.
+Definition cget (c : cheap) (v : var) : option nat := nth v (cvars c) None.
+Definition cset (c : cheap) (v : var) (p : option nat) : cheap := {| cells := cells c; cvars := set_nth v p (cvars c) |}.
 
-(* ---- (b) structure: cons cells with cdr pointers only ---- *)
-Record cstate := { cdrs : list (option nat); cvars : list (option nat) }.
-Definition cinit (n : nat) : cstate := {| cdrs := []; cvars := repeat None n |}.
-Definition cget (c : cstate) (v : var) : option nat := nth v (cvars c) None.
-Definition cset (c : cstate) (v : var) (p : option nat) : cstate := {| cdrs := cdrs c; cvars := set_nth v p (cvars c) |}.
-Definition cdr_of (c : cstate) (p : option nat) : option nat := match p with Some i => nth i (cdrs c) None | None => None end.
-Fixpoint nth_cdr (c : cstate) (n : nat) (p : option nat) : option nat :=
-  match n with O => p | S n' => nth_cdr c n' (cdr_of c p) end.
-(* the cells of a list (fuel bounds the walk; structures here are acyclic) *)
-Fixpoint cells (c : cstate) (fuel : nat) (p : option nat) : list nat :=
+Definition cdr_at (cs : list cell) (p : option nat) : option nat :=
+  match p with
+  | Some k => match nth_error cs k with Some x => cdr x | None => None end
+  | None => None
+  end.
+Fixpoint nth_cdr (cs : list cell) (n : nat) (p : option nat) : option nat :=
+  match n with O => p | S n' => nth_cdr cs n' (cdr_at cs p) end.
+(* the cells of the list p (fuel bounds the walk: rplacd can build circular structure) *)
+Fixpoint ids (cs : list cell) (fuel : nat) (p : option nat) : list nat :=
   match fuel, p with
-  | S f, Some i => i :: cells c f (nth i (cdrs c) None)
+  | S f, Some k => match nth_error cs k with Some x => k :: ids cs f (cdr x) | None => [] end
   | _, _ => []
   end.
-Definition reach (c : cstate) (v : var) : list nat := cells c (S (length (cdrs c))) (cget c v).
-(* a fresh chain of n cells ending in tail *)
-Fixpoint chain (c : cstate) (n : nat) (tail : option nat) : cstate * option nat :=
-  match n with
-  | O => (c, tail)
-  | S n' => let '(c1, p) := chain c n' tail in
-            ({| cdrs := cdrs c1 ++ [p]; cvars := cvars c1 |}, Some (length (cdrs c1)))
-  end.
-Definition last_cell (c : cstate) (v : var) : option nat := match rev (reach c v) with i :: _ => Some i | [] => None end.
-Definition set_cdr (c : cstate) (i : nat) (p : option nat) : cstate := {| cdrs := set_nth i p (cdrs c); cvars := cvars c |}.
+Definition chain (c : cheap) (p : option nat) : list nat := ids (cells c) (length (cells c)) p.
+Definition car_at (cs : list cell) (k : nat) : Z := match nth_error cs k with Some x => car x | None => 0%Z end.
+Definition clist (c : cheap) (p : option nat) : list Z := map (car_at (cells c)) (chain c p).
+Definition ccontents (c : cheap) (v : var) : list Z := clist c (cget c v).
 
-Definition cstep (c : cstate) (o : op) : cstate :=
+(* new cells holding xs, each pointing to the next, the last to nil *)
+Fixpoint mkchain (base : nat) (xs : list Z) : list cell :=
+  match xs with
+  | [] => []
+  | x :: xs' => {| car := x; cdr := match xs' with [] => None | _ => Some (S base) end |} :: mkchain (S base) xs'
+  end.
+Definition cfresh (c : cheap) (dst : var) (xs : list Z) : cheap :=
+  {| cells := cells c ++ mkchain (length (cells c)) xs;
+     cvars := set_nth dst (match xs with [] => None | _ => Some (length (cells c)) end) (cvars c) |}.
+
+Definition set_car (cs : list cell) (k : nat) (x : Z) : list cell :=
+  match nth_error cs k with Some y => set_nth k {| car := x; cdr := cdr y |} cs | None => cs end.
+Definition set_cdr (cs : list cell) (k : nat) (p : option nat) : list cell :=
+  match nth_error cs k with Some y => set_nth k {| car := car y; cdr := p |} cs | None => cs end.
+Fixpoint set_cars (cs : list cell) (ks : list nat) (xs : list Z) : list cell :=
+  match ks, xs with k :: ks', x :: xs' => set_cars (set_car cs k x) ks' xs' | _, _ => cs end.
+Definition cwrite (c : cheap) (k : nat) (x : Z) : cheap := {| cells := set_car (cells c) k x; cvars := cvars c |}.
+Definition cwrite_all (c : cheap) (ks : list nat) (xs : list Z) : cheap := {| cells := set_cars (cells c) ks xs; cvars := cvars c |}.
+Definition cwrite_cdr (c : cheap) (k : nat) (p : option nat) : cheap := {| cells := set_cdr (cells c) k p; cvars := cvars c |}.
+
+Definition cstep (c : cheap) (o : op) : cheap :=
+  let cs := cells c in
+  let L := ccontents c in
   match o with
-  | OList xs dst => let '(c1, p) := chain c (length xs) None in cset c1 dst p
-  | OCons _ src dst => let '(c1, p) := chain c 1 (cget c src) in cset c1 dst p
-  | OPush _ v => let '(c1, p) := chain c 1 (cget c v) in cset c1 v p
-  | OCdr src dst => cset c dst (cdr_of c (cget c src))
-  | OPop v => cset c v (cdr_of c (cget c v))
-  | ONthcdr n src dst => cset c dst (nth_cdr c n (cget c src))
-  | OLast src dst => cset c dst (last_cell c src)                                   (* shares the last cons *)
-  | OButlast src dst => let '(c1, p) := chain c (length (reach c src) - 1) None in cset c1 dst p
-  | OSubseq b e src dst => let '(c1, p) := chain c (e - b) None in cset c1 dst p    (* subseq copies *)
-  | OCopy src dst | OReverse src dst | ORemove _ src dst => let '(c1, p) := chain c (length (reach c src)) None in cset c1 dst p
-  | OAppend a b dst => let '(c1, p) := chain c (length (reach c a)) (cget c b) in cset c1 dst p   (* shares the last argument *)
-  | OAdd src _ dst =>                                                               (* destructive: like nconc with a one-element list *)
-      let '(c1, p) := chain c 1 None in
-      match last_cell c src with
-      | Some i => cset (set_cdr c1 i p) dst (cget c src)
-      | None => cset c1 dst p
-      end
+  | OList xs dst => cfresh c dst xs
+  | OCons x src dst => cfresh c dst (x :: L src)
+  | OPush x v => cfresh c v (x :: L v)
+  | OListStar xs src dst => match xs with [] => cset c dst (cget c src) | _ => cfresh c dst (xs ++ L src) end
+  | OCdr src dst => cset c dst (cdr_at cs (cget c src))
+  | ONthcdr n src dst => cset c dst (nth_cdr cs n (cget c src))
+  | OMember x src dst =>
+      cset c dst (match index_of x (L src) with Some i => nth_cdr cs i (cget c src) | None => None end)
+  | OPop v => cset c v (cdr_at cs (cget c v))
+  | OLast src dst =>
+      (* slip: a list of at most one element is returned itself, otherwise a copy of the last element *)
+      if length (L src) <=? 1 then cset c dst (cget c src) else cfresh c dst (skipn (length (L src) - 1) (L src))
+  | OButlast src dst => cfresh c dst (firstn (length (L src) - 1) (L src))
+  | OSubseq b e src dst =>
+      if (b <=? e) && (e <=? length (L src)) then cfresh c dst (firstn (e - b) (skipn b (L src))) else c   (* else: error *)
+  | OCopy src dst => cfresh c dst (L src)
+  | OReverse src dst => cfresh c dst (rev (L src))
+  | OAppend a b dst => cfresh c dst (L a ++ L b)
+  | OAdd src x dst => cfresh c dst (L src ++ [x])
+  | OSetcar v x => match cget c v with Some k => cwrite c k x | None => c end                              (* nil: error *)
+  | OSetnth v i x | OSetelt v i x => match nth_cdr cs i (cget c v) with Some k => cwrite c k x | None => c end
+  | ORplaca v x dst => match cget c v with Some k => cset (cwrite c k x) dst (Some k) | None => c end
+  | ORplacd v b dst => match cget c v with Some k => cset (cwrite_cdr c k (cget c b)) dst (Some k) | None => c end
+  | ONreverse src dst => cset (cwrite_all c (chain c (cget c src)) (rev (L src))) dst (cget c src)
+  | OSort src dst => cset (cwrite_all c (chain c (cget c src)) (isort (L src))) dst (cget c src)
+  | ORemove x src dst => cfresh c dst (filter (fun y => negb (Z.eqb x y)) (L src))
+  | OMapcar k src dst => cfresh c dst (map (fun y => (y + k)%Z) (L src))
   | ONconc a b dst =>
-      match last_cell c a with
-      | Some i => cset (set_cdr c i (cget c b)) dst (cget c a)
-      | None => cset c dst (cget c b)
+      match L a, L b with
+      | [], [] => cset c dst None
+      | [], _ => cset c dst (cget c b)
+      | _, [] => cset c dst (cget c a)
+      | la, lb => cfresh c dst (la ++ lb)
       end
-  | OSetcar _ _ | OSetnth _ _ _ => c
-  | ONreverse src dst | OSort src dst => cset c dst (cget c src)
   end.
+Fixpoint crun (c : cheap) (ops : list op) : cheap :=
+  match ops with [] => c | o :: ops' => crun (cstep c o) ops' end.
 
-Definition shares (c : cstate) (v w : var) : bool :=
-  existsb (fun i => existsb (Nat.eqb i) (reach c w)) (reach c v).
+(* two variables share structure: some cell belongs to both lists *)
+Definition shares (c : cheap) (v w : var) : bool :=
+  existsb (fun i => existsb (Nat.eqb i) (chain c (cget c w))) (chain c (cget c v)).
 
-(* ---- (c) the frame rules ---- *)
+(* ---- classes of operations used by the frame theorems ---- *)
 Definition destructive_on (o : op) : option var :=     (* the list a documented-destructive operation works on *)
   match o with
-  | OSetcar v _ | OSetnth v _ _ => Some v
-  | ONreverse src _ | OSort src _ | OAdd src _ _ => Some src
-  | ONconc a _ _ => Some a
+  | OSetcar v _ | OSetnth v _ _ | OSetelt v _ _ | ORplaca v _ _ | ORplacd v _ _ => Some v
+  | ONreverse src _ | OSort src _ => Some src
   | _ => None
   end.
-Definition extending (o : op) : bool :=
-  match o with OCons _ _ _ | OAppend _ _ _ | OPush _ _ | OAdd _ _ _ | ONconc _ _ _ => true | _ => false end.
 Definition dst_of (o : op) : var :=
   match o with
-  | OList _ d | OCons _ _ d | OCdr _ d | ONthcdr _ _ d | OLast _ d | OButlast _ d | OSubseq _ _ _ d | OCopy _ d
-  | OReverse _ d | OAppend _ _ d | OAdd _ _ d | ONreverse _ d | ONconc _ _ d | OSort _ d | ORemove _ _ d => d
-  | OPush _ v | OPop v | OSetcar v _ | OSetnth v _ _ => v
+  | OList _ d | OCons _ _ d | OListStar _ _ d | OCdr _ d | ONthcdr _ _ d | OMember _ _ d | OLast _ d | OButlast _ d
+  | OSubseq _ _ _ d | OCopy _ d | OReverse _ d | OAppend _ _ d | OAdd _ _ d | ONreverse _ d | ONconc _ _ d
+  | OSort _ d | ORemove _ _ d | OMapcar _ _ d | ORplaca _ _ d | ORplacd _ _ d => d
+  | OPush _ v | OPop v | OSetcar v _ | OSetnth v _ _ | OSetelt v _ _ => v
   end.
-Fixpoint prefix (a b : list Z) : bool :=
-  match a, b with [] , _ => true | x :: a', y :: b' => Z.eqb x y && prefix a' b' | _, _ => false end.
 Fixpoint zlist_eqb (a b : list Z) : bool :=
   match a, b with [], [] => true | x :: a', y :: b' => Z.eqb x y && zlist_eqb a' b' | _, _ => false end.
 
-(* one step judged on observed contents: pre and post are the contents of every variable *)
-Definition frame_ok (nv : nat) (c : cstate) (o : op) (pre post : var -> list Z) : bool :=
-  (* the result is what the operation is defined to return *)
-  (match val_result o pre with Some (d, xs) => zlist_eqb (post d) xs | None => true end) &&
-  forallb (fun w =>
-    Nat.eqb w (dst_of o) ||
-    match destructive_on o with
-    | None => zlist_eqb (post w) (pre w)                          (* not destructive: nothing else changes *)
-    | Some v =>
-        (* destructive: only lists that share structure with v by the language rules may change ... *)
-        (shares c v w || zlist_eqb (post w) (pre w)) &&
-        (* ... and extending never overwrites an element reachable from another variable *)
-        (negb (extending o) || prefix (pre w) (post w))
-    end) (seq 0 nv).
-
-(* ---- the guard on the code model: operations after which the slices still behave like conses ---- *)
+(* ---- the guard: where the slices behave like the conses of the reference ----
+   g_inv: rplacd is the only modelled operation left that writes a list over the old elements of its
+   argument in place (pkg/cl/rplacd.go: list = append(list[:1], a2...)): it cannot change the length of
+   the slices other variables hold, and whether it writes at all depends on the spare capacity.
+   g_step additionally leaves out subseq applied to nil, which slip rejects with a type error although
+   it accepts an empty list value (pkg/cl/subseq.go getArgs, default case; recorded as a finding of C14). *)
+Definition g_inv (o : op) : bool := match o with ORplacd _ _ _ => false | _ => true end.
+Definition g_step (st : state) (o : op) : bool :=
+  g_inv o && match o with OSubseq _ _ src _ => match getv st src with Some _ => true | None => false end | _ => true end.
 Definition live (st : state) (w : var) : option slice :=
   match getv st w with Some s => if s_len s =? 0 then None else Some s | None => None end.
-Definition alone_on_array (nv : nat) (st : state) (v : var) (a : aid) : bool :=
-  forallb (fun w => Nat.eqb w v || match live st w with Some t => negb (Nat.eqb (s_arr t) a) | None => true end) (seq 0 nv).
-Definition g_step (nv : nat) (st : state) (o : op) : bool :=
-  match o with
-  | OSubseq _ _ _ _ => false                  (* re-slices: shares cells although the language copies *)
-  | OAdd src _ dst =>
-      match getv st src with
-      | Some s => if s_len s <? scap (hp st) s then Nat.eqb src dst && alone_on_array nv st src (s_arr s) else true
-      | None => true
-      end
-  | ONconc a b dst =>
-      match getv st a with
-      | Some s => if (0 <? s_len s) && (0 <? length (contents (hp st) (getv st b))) &&
-                     (s_len s + length (contents (hp st) (getv st b)) <=? scap (hp st) s)
-                  then Nat.eqb a dst && alone_on_array nv st a (s_arr s) && negb (Nat.eqb a b) else true
-      | None => true
-      end
-  | _ => true
-  end.
-(* all non-empty slices on one array end at the same cell: they are tails of one another *)
-Definition same_end (s t : slice) : bool := Nat.eqb (s_off s + s_len s) (s_off t + s_len t).
-Definition inv_b (nv : nat) (st : state) : bool :=
-  forallb (fun v => match live st v with
-                    | Some s => (s_arr s <? length (hp st)) && (s_off s + s_len s <=? length (arr (hp st) (s_arr s))) &&
-                                forallb (fun w => match live st w with
-                                                  | Some t => negb (Nat.eqb (s_arr s) (s_arr t)) || same_end s t
-                                                  | None => true end) (seq 0 nv)
-                    | None => true end) (seq 0 nv).
